@@ -14,6 +14,7 @@
 From Coq Require Import List ZArith NArith Bool Ascii String.
 From Coq Require Uint63.
 From Qryn Require Import gen.DecodeConsts.
+From Qryn Require model.AnyValue.
 Import ListNotations.
 Open Scope Z_scope.
 
@@ -426,9 +427,20 @@ Definition calls_ddmet (body : list ddseries) : list call :=
                   (repeat EmptyString n) (map snd (dm_points s)) (fast_fill 0%N n TYPE_METRIC)) body.
 
 (* ---------------------------------------------------------------- OTLP logs: otlplogs.go *)
-Inductive oval := OStr (s : string) | OBool (b : bool) | OInt (z : Z) | ONone.
+(* attribute values and the body of a record are any-value trees: model/AnyValue.v (shared with property C04, which owns
+   the label side): string / bool / int / double / bytes / array / key-value list / no value *)
+Definition oval := AnyValue.oval.
+Notation OStr := AnyValue.OStr.
+Notation OBool := AnyValue.OBool.
+Notation OInt := AnyValue.OInt.
+Notation ODouble := AnyValue.ODouble.
+Notation OBytes := AnyValue.OBytes.
+Notation OArr := AnyValue.OArr.
+Notation OKv := AnyValue.OKv.
+Notation ONone := AnyValue.ONone.
 Definition attrs := list (string * oval).
-Record orecord := OR { or_attrs : attrs; or_sev : string; or_body : option string; or_ts : N }.
+(* or_body: logRecord.Body (ONone: no body) *)
+Record orecord := OR { or_attrs : attrs; or_sev : string; or_body : oval; or_ts : N }.
 Record oscope := OS { os_has : bool; os_attrs : attrs; os_records : list orecord }.
 Record oreslog := ORL { orl_has : bool; orl_attrs : attrs; orl_scopes : list oscope }.
 
@@ -439,9 +451,9 @@ Definition sanitize_key (k : string) : string :=
   | EmptyString => "_"%string
   | String a _ => if is_digit (byte a) then String "_" s else s
   end.
-(* SanitizeValue (string, bool, int; absent value -> "") *)
-Definition render_oval (v : oval) : string :=
-  match v with OStr s => s | OBool true => "true" | OBool false => "false" | OInt z => dec_Z z | ONone => EmptyString end%string.
+(* SanitizeValue over the whole any-value tree: string as it is, bool, int, double (strconv.FormatFloat 'f' -1), bytes
+   (base64), array and key-value list (json.Marshal of the rendered items / of the map of sanitised keys), no value -> "" *)
+Definition render_oval (v : oval) : string := AnyValue.otlp_value v.
 
 (* Go map assignment m[k] = v on an association list *)
 Fixpoint map_set (m : labels) (k v : string) : labels :=
@@ -461,7 +473,7 @@ Definition calls_otlp (body : list oreslog) : list call :=
     let res_map := add_attrs [] (if orl_has rl then orl_attrs rl else []) in
     flat_map (fun sl =>
       let scope_map := add_attrs [] (if os_has sl then os_attrs sl else []) in
-      map (fun r => K (orecord_labels res_map scope_map r) [wrap64 (Z.of_N (or_ts r))] [opt_str (or_body r)] [0%N] [TYPE_LOG])
+      map (fun r => K (orecord_labels res_map scope_map r) [wrap64 (Z.of_N (or_ts r))] [render_oval (or_body r)] [0%N] [TYPE_LOG])
           (os_records sl)) (orl_scopes rl)) body.
 
 (* ---------------------------------------------------------------- the seven parsers *)
@@ -587,7 +599,7 @@ Definition entries_otlp (body : list oreslog) : list entry :=
   flat_map (fun rl => flat_map (fun sl =>
     map (fun r => E (orecord_labels (add_attrs [] (if orl_has rl then orl_attrs rl else []))
                                     (add_attrs [] (if os_has sl then os_attrs sl else [])) r)
-                    (wrap64 (Z.of_N (or_ts r))) (opt_str (or_body r)) 0%N TYPE_LOG) (os_records sl)) (orl_scopes rl)) body.
+                    (wrap64 (Z.of_N (or_ts r))) (render_oval (or_body r)) 0%N TYPE_LOG) (os_records sl)) (orl_scopes rl)) body.
 
 Definition entries_of (b : body) : list entry :=
   match b with
@@ -761,3 +773,29 @@ Definition spec_violations (cs : list case) : list Z := map c_id (filter spec_vi
 Definition unmodelled (cs : list case) : list Z := map c_id (filter (fun c => negb (body_modelled (c_body c))) cs).
 (* one evaluation of the case list (call by value), three verdict lists *)
 Definition check_all (cs : list case) : list Z * list Z * list Z := (mismatches cs, spec_violations cs, unmodelled cs).
+
+(* ---------------------------------------------------------------- a body whose reader fails part-way
+   (a truncated or corrupted gzip / snappy stream behind Content-Encoding, a connection that breaks): the decoder gets
+   through the first n invocations of the callback, then the reader's error ends Decode and the request fails with what
+   was sent so far; only when nothing is left to decode may the error go unnoticed (the JSON decoders stop reading behind
+   the closing bracket), and then the request is answered as the whole body is. *)
+Inductive outcome := Answered (r : result) | ReadFailed (sent : list chunk).
+Section CUT.
+  Variable fp : labels -> N.
+  Variable enc_len : labels -> Z.
+  Variable CS : Type.
+  Variable cache_add : CS -> Z -> N -> N -> CS * bool.
+  Variable cache0 : CS.
+  Variable threshold : Z.
+  Variable flush_limit : N.
+  Variable ctx_ttl : N.
+  Definition decode_cut (n : nat) (noticed : bool) (b : body) : outcome :=
+    let ks := calls_of flush_limit b in
+    if Nat.ltb n (List.length ks) || noticed
+    then ReadFailed (fst (steps fp enc_len CS cache_add threshold ctx_ttl (empty_chunk, cache0) (firstn n ks)))
+    else Answered (decode fp enc_len CS cache_add cache0 threshold flush_limit ctx_ttl b).
+End CUT.
+(* the oracle on the observed responses of such a request: it failed, or its rows are those of the WHOLE body *)
+Definition fr_violation (c : case) : bool := match c_err c with ENone => spec_violation c | _ => false end.
+Definition fr_check_all (cs : list case) : list Z * list Z := ([], map c_id (filter fr_violation cs)).
+
